@@ -19,6 +19,7 @@ def run(chk):
     chk.assume("effects inside dependency crates are not analysed; wall-clock bounds are not decided")
     chk.exhaustive = True
     batcher.send_rules(chk, P, "C09")
+    batcher.lossless_variants(chk, P, "C09")
     batcher.wait_closures(chk, P, "C09")
     batcher.who_may(chk, P, "C09")
     batcher.emit_only_enqueues(chk, P, "C09")
